@@ -80,6 +80,11 @@ class Home:
     def env(self, role="-", uid=None, trace=True, **extra):
         e = {"PATH": "/usr/bin:/bin", "LD_PRELOAD": SHIM, "VSHIM_HOME": self.dir, "VSHIM_QMAIL": self.qmailpath,
              "VSHIM_PASSWD": self.passwd, "VSHIM_GROUP": self.group, "VSHIM_ROLE": role}
+        if os.environ.get("VERIF_SANITIZE"):
+            # sanitised builds: reports go to files (C20 collects them), leaks are not errors (the programs exit to free)
+            for k in ("ASAN_OPTIONS", "UBSAN_OPTIONS", "VSHIM_SANLOG"):
+                if os.environ.get(k):
+                    e[k] = os.environ[k]
         if trace:
             e["VSHIM_TRACE"] = self.trace
         if uid is not None:
